@@ -313,10 +313,17 @@ class ActionEval:
             return ret(('vec', ()))
         if short.endswith('String::new'):
             return ret(('lit', ''))
-        if re.search(r'Diagnostic::from_error_recovery$|Diagnostic::from_parse_error$', short):
+        if re.search(r'(^|::)Diagnostic::\w+$', short) or re.search(r'diagnostic::<impl at [^>]*>::\w+$', short):
+            # constructors of diagnostics are not interpreted: what matters is whether they ALWAYS yield one (return type)
+            cands = [f for f in self.prog.fns if self.same(f.name, n) and '::verif' not in f.name]
+            if len(cands) > 1:
+                cands = [f for f in cands if '<impl at' in f.name] or cands
+            rty = cands[0].ret if len(cands) == 1 else ''
+            if re.match(r'^(std::option::|core::option::)?Option<', rty or ''):
+                return [([('maybe_diag', last, True)], ('some', ('diag',)), {}), ([('maybe_diag', last, False)], ('none',), {})]
             return ret(('diag',))
         if re.search(r'Vec::<.*>::push$', n) and vals and vals[0] == ('diags',):
-            return ret(('unit',))
+            return [([('pushed_diag',)], ('unit',), {})]
         if re.search(r'Vec::<.*>::push$', n):
             if not (isinstance(a[0], tuple) and a[0][0] == 'mref'):
                 raise Unsupported('push through a reference that is not a local borrow')
